@@ -6,7 +6,7 @@ expression, fixed argument positions, literal index tuples).  ``SymEx`` runs a f
 symbolic arguments and hands the rule the computed values, so that behaviour-preserving spellings
 give the same value:
 
-* temporaries, tuple unpacking (``a, b = f()`` -> ``item(f(), 0)``, ``item(f(), 1)``; the unpacking also
+* temporaries, tuple unpacking (``a, b = f()`` -> ``item(f(), 0)``, ``item(f(), 1)``, also in front of a star: ``a, b, *_ = f()``; the unpacking also
   proves the length of the value, which later lets ``enumerate(v)`` / ``for x in v`` / ``base[v]`` unroll),
 * helper functions: nested functions, methods reached through ``self`` and functions of the same module
   are inlined (the rule names the functions it wants to see as opaque atoms); arguments are bound to the
@@ -21,13 +21,57 @@ give the same value:
   ``refine`` proves relational invariants of the form ``v == G(w)`` by induction (initially true,
   preserved by the body) and substitutes them.
 
+* calls of function VALUES (``SymEx.apply``): lambdas (closures), ``functools.partial`` objects, bound methods and
+  callable instances of package classes, ``operator.attrgetter`` / ``itemgetter`` / ``methodcaller``; parameters are
+  bound by name, ``*args`` / ``**kwargs`` parameters receive the remaining arguments as a tuple / dict, ``**shared`` of a
+  known dict is spread into keywords,
+* closures (nested functions, lambdas) read and modify the variables of the RUNNING activation of their definer, also
+  when they are called from somewhere else (handed to a helper, held by a ``partial``); ``SymEx(inline_cached=True)``
+  also executes the body of ``@cache`` functions (the value of a call does not depend on the memoisation),
+  a nested function that outlives its definer (returned, stored) keeps the variables of that activation (``escaped``);
+  a name that is bound nowhere the executor can see is ``unknown`` - never a made-up global,
+* evaluation on a small CONCRETE instance: ``SymEx(stubs={call / attribute value: value}, unroll=n)`` replaces calls of
+  atoms by concrete data (a chain of distinct ``("sym", name)`` ids, a table of parents) and then executes `while` loops
+  with a decided test, recursive functions, and in-place list operations (``remove`` / ``reverse`` / ``pop`` / ``index`` /
+  ``insert`` / ``xs[i] = v`` / ``del xs[i]``) element by element - loop, recursion, queue and generator spellings of one
+  computation give the same value on the instance,
+* module-level constants: a name bound once to a number / text literal is that literal (``_X, _Y, _Z = 1, 2, 3``); a
+  tuple of literals keeps its name (``module_constant``) and is expanded when iterated / unpacked; classmethods and
+  static methods of private helper classes of the module are inlined, ``NamedTuple._asdict()`` / ``_fields`` are known,
+* ``first, *middle, last = xs`` of a sequence that is not known element by element gives subscripts / a slice of it;
+  ``d.setdefault(k, v)``, ``d |= other``, ``d.update(other)``, ``d[k] = v`` modify the dict object wherever it is bound;
+  a container that grows records a ``("grow", pc, name, item)`` event (order of effects relative to calls),
+* combinators that only re-spell a loop: ``map`` / ``filter`` / ``itertools.starmap`` (= the comprehension),
+  ``itertools.product`` of known sequences, a nested comprehension whose inner loop only passes its elements on (= ``*xs``),
+  ``itertools.chain`` / ``chain.from_iterable`` (= ``extend`` in a loop), ``sum(xs, start)`` / ``functools.reduce`` /
+  ``math.prod`` and an accumulation loop ``acc = f(acc, x)`` over an unknown iterable all give
+  ``("fold", eaches, init, step, head)`` (``addends`` / ``factors`` read sums and products in any of these spellings,
+  ``as_number`` reads ``1`` / ``sp.Integer(1)`` / ``sp.S.One``),
+* objects: ``Cls(...)`` of a package class binds the constructor arguments (``__init__`` or the fields of an attrs /
+  dataclass / NamedTuple class, ``ctor_fields``); ``obj.attr`` of such an object is the value the constructor gave it
+  (``object_attr``); methods of an object constructed in the analysed function are inlined like functions of the module,
+* mutable containers handed to an inlined callee (also inside a ``partial``) and modified there in place are seen by
+  everything that holds the identical object (accumulator passed down instead of returned and merged); lists, sets and
+  dicts that grow inside a generic loop (also through a callee) get ``foreach`` items,
+* text: f-strings, ``+`` concatenation, ``"sep".join([...])``, ``"{}{name}".format(a, name=b)``, ``"%s%s" % (a, b)`` and
+  ``str(x)`` give the same ``("fstr", parts)``,
+* in-place ``remove`` / ``discard`` / ``reverse`` / ``sort`` of a sequence that is not known element by element give
+  ``("seqop", op, sequence, args)``,
+* ``decision_table`` turns a value that depends on conditions into a function of its atomic tests (guard clauses,
+  De Morgan, swapped branches give the same table); ``not_followed`` says whether a value is completely expressed in
+  known building blocks - the premise for reporting a violation rather than "cannot decide",
+* iteration over a COLLECTED iteration is the iteration itself (``flatten_each``): an element of a list that a
+  comprehension / generator function / accumulator loop produced ranges over what that comprehension ranged over (with its
+  filters); ``free_eaches`` lists the generic elements a value depends on that no ``foreach`` / ``fold`` inside it binds.
+
 Value grammar (all tuples, hashable):
   ("const", v) ("param", name) ("global", dotted-or-qualname) ("builtin", name) ("localfunc", qual)
   ("call", f, args, kwargs) ("attr", base, name) ("sub", base, index) ("item", iterable, k)
   ("tuple", items) ("list", items) ("set", items) ("dict", ((k, v), ...)) ("star", v)
   ("mul", factors) ("binop", op, l, r) ("unop", op, v) ("cmp", op, l, r) ("and"|"or", items) ("not", v)
   ("fstr", parts) ("phi", ((pc, v), ...)) ("when", pc, v) ("each", iterable, n) ("foreach", each, v)
-  ("carried", name, n) ("sym", name) ("unknown", n, why)
+  ("carried", name, n) ("sym", name) ("unknown", n, why) ("fold", eaches, init, step, head) ("partial", f, args, kwargs)
+  ("lambda", text, n) ("getter", kind, what) ("seqop", op, sequence, args) ("carried-out", name, n)
 where a path condition ``pc`` is a tuple of ``(test value in positive normal form, outcome)``.
 
 Nothing of the analysed code is executed.  Whatever the executor cannot model becomes an
@@ -144,6 +188,245 @@ def func_name(call) -> str:
     return ""
 
 
+_NUMBER_GLOBALS = {"sympy.S.Zero": 0, "sympy.S.One": 1, "sympy.S.NegativeOne": -1, "sympy.S.Half": 0.5}
+
+
+def as_number(v):
+    """The number a value denotes, however it is spelled (``1``, ``sp.Integer(1)``, ``sp.Rational(1)``, ``sp.S.One``,
+    ``sp.sympify(1)``, ``-sp.S.One``), else None."""
+    if is_const(v, int, float):
+        return v[1]
+    if isinstance(v, tuple) and v:
+        if v[0] == "global" and v[1] in _NUMBER_GLOBALS:
+            return _NUMBER_GLOBALS[v[1]]
+        if v[0] == "call" and v[1][0] in {"global", "builtin"} and not v[3] and v[1][1] in {
+                "sympy.Integer", "sympy.Rational", "sympy.Float", "sympy.S", "sympy.sympify", "sympy.Number", "decimal.Decimal", "fractions.Fraction", "float", "int"}:
+            nums = [as_number(a) for a in v[2]]
+            if len(v[2]) == 1 and is_const(v[2][0], str):
+                try:
+                    nums = [float(v[2][0][1])]  # Decimal("0.0"), Rational("1/2") is not handled
+                except ValueError:
+                    nums = [None]
+            if len(nums) == 1 and nums[0] is not None:
+                return nums[0]
+            if len(nums) == 2 and v[1][1] == "sympy.Rational" and None not in nums and nums[1]:
+                return nums[0] / nums[1]
+        if v[0] == "unop" and v[1] == "-":
+            n = as_number(v[2])
+            return -n if n is not None else None
+    return None
+
+
+def not_followed(v, known: tuple = (), package: str = "ampform") -> str | None:
+    """Why a value is NOT completely expressed in known building blocks (None if it is): it contains something the
+    executor could not follow (``unknown`` / loop-carried values / a function value that was never applied / a default
+    that is not a literal), or a call of a function of the analysed package that is not one of ``known`` (qualified
+    names or name suffixes whose meaning the rule knows) - its result could be anything.  A rule may report a
+    violation only for values that ARE completely followed; everything else is "cannot decide"."""
+    for x in subterms(v):
+        k = x[0]
+        if k in {"unknown", "carried-out", "default", "exception"}:
+            return f"a value the symbolic execution cannot follow ({show(x)[:60]})"
+        if k == "call":
+            f = x[1]
+            name = f[1] if f[0] in {"global", "localfunc", "method"} else None
+            if f[0] == "lambda" or f[0] == "partial":
+                return f"a call of `{show(f)[:40]}` that could not be bound"
+            if name is not None and (name.startswith(package) or f[0] in {"localfunc", "method"}) and not any(name == q or name.endswith(q) for q in known):
+                return f"the result of {name.split('::')[-1]}(), which was not followed"
+    return None
+
+
+def addends(v, sx: "SymEx | None" = None):
+    """``(start, [items])`` of a sum, however it is spelled: ``a + b``, ``sp.Add(*terms)``, ``sum(terms, start)``, an
+    accumulation loop / ``reduce`` whose step is ``accumulator + term`` (the item is then ``("foreach", each, term)``).
+    None if ``v`` is not a sum."""
+    if not isinstance(v, tuple) or not v:
+        return None
+    if v[0] == "fold":
+        step, head = v[3], v[4]
+        conds = ()
+        if step[0] == "when":
+            conds, step = step[1], step[2]
+        if step[0] == "phi":
+            # `if c: acc += term` - on the other paths the accumulator stays as it is
+            moving = [(pc, x) for pc, x in step[1] if x != head]
+            if len(moving) == 1:
+                conds, step = conds + moving[0][0], moving[0][1]
+        term = None
+        if step[0] == "binop" and step[1] == "+" and step[2] == head and not contains(step[3], head):
+            term = step[3]
+        elif step[0] == "binop" and step[1] == "+" and step[3] == head and not contains(step[2], head):
+            term = step[2]
+        elif step[0] == "call" and func_name(step) == "sympy.Add" and not step[3] and len(step[2]) == 2 and head in step[2]:
+            term = next((a for a in step[2] if a != head), None)
+        if term is None:
+            return None
+        if conds:
+            term = ("when", conds, term)
+        for e in reversed(v[1]):
+            term = ("foreach", e, term)
+        inner = addends(v[2], sx) if not (v[2][0] in {"const", "global"} or as_number(v[2]) is not None) else None
+        if inner is not None:
+            return inner[0], inner[1] + [term]
+        return v[2], [term]
+    if v[0] == "binop" and v[1] == "+":
+        out = []
+        start = ("const", 0)
+        for side in (v[2], v[3]):
+            inner = addends(side, sx)
+            if inner is not None:
+                if as_number(inner[0]) != 0:
+                    out.append(inner[0])
+                out += inner[1]
+            else:
+                out.append(side)
+        return start, out
+    if v[0] == "call" and func_name(v) == "sympy.Add" and not [k for k, _ in v[3] if k != "evaluate"]:
+        return ("const", 0), list(v[2])
+    if v[0] == "call" and v[1] == ("builtin", "sum") and 1 <= len(v[2]) <= 2 and not v[3]:
+        seq = sx.as_items(v[2][0]) if sx is not None else (list(v[2][0][1]) if v[2][0][0] in {"list", "tuple"} else None)
+        if seq is not None:
+            return (v[2][1] if len(v[2]) == 2 else ("const", 0)), list(seq)
+    return None
+
+
+def factors(v, sx: "SymEx | None" = None):
+    """The factors of a product, however it is spelled (``a * b``, ``sp.Mul(*factors)``, ``math.prod(...)``, a
+    multiplication fold); ``[v]`` if ``v`` is not a product."""
+    if isinstance(v, tuple) and v:
+        if v[0] == "mul":
+            return [y for x in v[1] for y in factors(x, sx)]
+        if v[0] == "call" and func_name(v) == "sympy.Mul" and not [k for k, _ in v[3] if k != "evaluate"]:
+            return [y for x in v[2] for y in factors(x, sx)]
+        if v[0] == "fold":
+            step, head = v[3], v[4]
+            if step[0] == "mul" and head in step[1] and sum(1 for x in step[1] if x == head) == 1:
+                rest = tuple(x for x in step[1] if x != head)
+                term = rest[0] if len(rest) == 1 else ("mul", rest)
+                for e in reversed(v[1]):
+                    term = ("foreach", e, term)
+                return ([] if as_number(v[2]) == 1 else factors(v[2], sx)) + [term]
+    return [v]
+
+
+def unwrap(item):
+    """``(eaches, conditions, plain value)`` of a container item below its ``foreach`` / ``when`` wrappers."""
+    eaches, pcs = (), ()
+    while isinstance(item, tuple) and item and item[0] in {"foreach", "when"}:
+        if item[0] == "when":
+            pcs += item[1]
+        else:
+            eaches += (item[1],)
+        item = item[2]
+    return eaches, pcs, item
+
+
+def atomic_tests(pc) -> list:
+    out = []
+
+    def rec(t):
+        if isinstance(t, tuple) and t and t[0] in {"and", "or"}:
+            for x in t[1]:
+                rec(x)
+        elif isinstance(t, tuple) and t and t[0] == "not":
+            rec(t[1])
+        else:
+            a, _ = normal(t)
+            if a not in out:
+                out.append(a)
+
+    for t, _ in pc:
+        rec(t)
+    return out
+
+
+def eval_test(t, env: dict):
+    """Truth value of a test under an assignment of its atomic tests (None if an atom is not assigned)."""
+    if isinstance(t, tuple) and t and t[0] == "and":
+        vals = [eval_test(x, env) for x in t[1]]
+        return None if None in vals else all(vals)
+    if isinstance(t, tuple) and t and t[0] == "or":
+        vals = [eval_test(x, env) for x in t[1]]
+        return None if None in vals else any(vals)
+    if isinstance(t, tuple) and t and t[0] == "not":
+        x = eval_test(t[1], env)
+        return None if x is None else not x
+    a, pos = normal(t)
+    if a not in env:
+        c = truth(a)
+        return None if c is None else (c == pos)
+    return env[a] == pos
+
+
+def eval_value(v, env: dict):
+    """The number / truth value a term denotes under an assignment of its atomic tests (arithmetic on literals, `int(b)`,
+    `bool(b)`, `and` / `or` / `not` / comparisons of the assigned tests); None if it is not determined."""
+    n = as_number(v)
+    if n is not None:
+        return n
+    if is_const(v, bool):
+        return v[1]
+    if not isinstance(v, tuple) or not v:
+        return None
+    if v[0] in {"and", "or", "not", "cmp"}:
+        return eval_test(v, env)
+    if v[0] == "unop" and v[1] == "-":
+        x = eval_value(v[2], env)
+        return None if x is None else -x
+    if v[0] == "mul":
+        out = 1
+        for x in v[1]:
+            y = eval_value(x, env)
+            if y is None:
+                return None
+            out *= y
+        return out
+    if v[0] == "binop" and v[1] in {"+", "-", "*", "**"}:
+        a, b = eval_value(v[2], env), eval_value(v[3], env)
+        if a is None or b is None:
+            return None
+        try:
+            return {"+": a + b, "-": a - b, "*": a * b, "**": a ** b}[v[1]]
+        except Exception:  # noqa: BLE001
+            return None
+    if v[0] == "call" and v[1][0] == "builtin" and v[1][1] in {"int", "bool", "float"} and len(v[2]) == 1 and not v[3]:
+        x = eval_value(v[2][0], env)
+        return None if x is None else {"int": int, "bool": bool, "float": float}[v[1][1]](x)
+    if v in env:
+        return env[v]
+    return None
+
+
+def decision_table(v, limit: int = 6):
+    """A value that depends on conditions as a function of its atomic tests: ``(atoms, {assignment tuple: plain value})``.
+    ``if a and b: X else: Y``, ``if not a or not b: Y else: X``, the same with early returns, a conditional expression
+    and arithmetic on the truth value (``1 - 2 * int(a and b)``) give the same table."""
+    alts = alternatives(v)
+    atoms = []
+    for pc, val in alts:
+        for a in atomic_tests(pc):
+            if a not in atoms:
+                atoms.append(a)
+        if as_number(val) is None:
+            for x in subterms(val):
+                if x[0] in {"and", "or", "not", "cmp"}:
+                    for a in atomic_tests(((x, True),)):
+                        if a not in atoms:
+                            atoms.append(a)
+    if len(atoms) > limit:
+        raise Undecided(f"more than {limit} independent conditions")
+    import itertools
+
+    table = {}
+    for bits in itertools.product((True, False), repeat=len(atoms)):
+        env = dict(zip(atoms, bits))
+        hit = [val for pc, val in alts if all(eval_test(t, env) == o for t, o in pc)]
+        hit = [("const", eval_value(h, env)) if as_number(h) is None and eval_value(h, env) is not None else h for h in hit]
+        table[bits] = hit[0] if hit and all(h == hit[0] for h in hit) else (None if not hit else ("ambiguous", tuple(hit)))
+    return atoms, table
+
+
 def show(v, depth: int = 0) -> str:
     """Readable text of a value (messages only)."""
     if not isinstance(v, tuple) or not v or not isinstance(v[0], str):
@@ -203,6 +486,16 @@ def show(v, depth: int = 0) -> str:
         return f"{v[1]}@head{v[2]}"
     if k == "unknown":
         return f"?{v[2]}"
+    if k == "fold":
+        return f"fold({s(v[3])} for {', '.join(s(e) for e in v[1])}; {s(v[4])} = {s(v[2])})"
+    if k == "partial":
+        return f"partial({', '.join([s(v[1])] + [s(a) for a in v[2]] + [f'{n}={s(x)}' for n, x in v[3]])})"
+    if k == "lambda":
+        return v[1]
+    if k == "seqop":
+        return f"{s(v[2])}.{v[1]}({', '.join(s(a) for a in v[3])})"
+    if k == "carried-out":
+        return f"{v[1]}@after-loop{v[2]}"
     return str(v)
 
 
@@ -302,10 +595,22 @@ class _Frame:
         self.yields: list = []
         self.loops: list[dict] = []
         self.entry_pc: tuple = ()
+        self.closures: list[str] = []  # nested functions defined by this activation
 
 
 class SymEx:
-    def __init__(self, tree: Tree, atoms: set[str] | frozenset[str] = frozenset(), inline_depth: int = 4, inline_modules: bool = True):
+    def __init__(self, tree: Tree, atoms: set[str] | frozenset[str] = frozenset(), inline_depth: int = 4, inline_modules: bool = True, inline_cached: bool = False,
+                 stubs: dict | None = None, unroll: int = 0):
+        """``inline_cached``: also execute the body of memoised functions (`@cache`): the VALUE of a call is that of the
+        uncached function (sharing of the result between calls is not a question of the value).
+        ``stubs`` / ``unroll`` - evaluation on a small CONCRETE instance: a call / attribute value that is a key of ``stubs``
+        evaluates to the stubbed value (e.g. the chain of state ids = a list of three distinct symbols); with ``unroll`` > 0
+        `while` loops whose test is decided in every iteration and recursive functions are executed concretely (at most
+        ``unroll`` iterations / activations).  However a loop, a recursion, a queue or a generator spells the computation,
+        the value on the instance is the same."""
+        self.inline_cached = inline_cached
+        self.stubs = dict(stubs or {})
+        self.unroll = unroll
         self.tree = tree
         self.atoms = set(atoms)
         self.inline_depth = inline_depth
@@ -319,6 +624,11 @@ class SymEx:
         self._stack: list[_Frame] = []
         self._loopctx: tuple = ()
         self.root: FuncInfo | None = None
+        self.lambdas: dict[int, tuple] = {}  # uid -> (ast.Lambda, scope chain at its creation)
+        self.escaped: dict[str, list] = {}  # nested function -> scope chains of the finished activations that defined it
+        self._root_len: int | None = None
+        self._live: list[State] = []
+        self._ctor_cache: dict = {}
 
     # ------------------------------------------------------------------ api
     def uid(self) -> int:
@@ -338,6 +648,8 @@ class SymEx:
         scopes = [env]
         if closure is not None:
             scopes.append(dict(closure))
+        if self._root_len is None:
+            self._root_len = len(scopes)
         st = State(scopes)
         return self._run_body(fn, st)
 
@@ -362,6 +674,10 @@ class SymEx:
             final.status = "raise"
             return (("list", tuple(frame.yields)) if is_gen else self.unknown(f"{fn.qual}: every path raises")), final
         final = self._merge([s for s, _ in outs], frame.entry_pc)
+        for q in frame.closures:
+            # a nested function may outlive this activation (it is returned, stored in an object): it keeps the variables
+            # of the activation as they are at its end
+            self.escaped.setdefault(q, []).append(final.scopes)
         if is_gen:
             return ("list", tuple(frame.yields)), final
         vals = []
@@ -437,6 +753,15 @@ class SymEx:
                 if isinstance(node.op, ast.Add) and old[0] == "list":
                     seq = self.as_items(rhs)
                     new = ("list", old[1] + tuple(self._cond_item(x, st) for x in seq)) if seq is not None else ("list", old[1] + (("star", rhs),))
+                elif isinstance(node.op, ast.BitOr) and old[0] == "dict":
+                    # `d |= other` updates d in place
+                    if rhs[0] == "dict":
+                        keys = {k for k, _ in rhs[1]}
+                        new = ("dict", tuple((k, x) for k, x in old[1] if k not in keys) + rhs[1])
+                    else:
+                        new = ("dict", old[1] + ((self._cond_item(("star", rhs), st), NONE),))
+                    self._rebind_container(node.target.id, old, new, st)
+                    return st
                 else:
                     new = self._binop(BIN.get(type(node.op), "?"), old, rhs)
                 st.store(node.target.id, new)
@@ -470,6 +795,8 @@ class SymEx:
         if isinstance(node, (ast.FunctionDef, ast.AsyncFunctionDef)):
             info = self.tree.func_of(node)
             st.store(node.name, ("localfunc", info.qual if info else node.name))
+            if info is not None and self._stack:
+                self._stack[-1].closures.append(info.qual)
             return st
         if isinstance(node, (ast.Pass, ast.Nonlocal, ast.Global, ast.Assert, ast.Import, ast.ImportFrom, ast.ClassDef)):
             return st
@@ -477,6 +804,11 @@ class SymEx:
             for t in node.targets:
                 if isinstance(t, ast.Name):
                     st.scopes[0].pop(t.id, None)
+                elif isinstance(t, ast.Subscript) and isinstance(t.value, ast.Name) and (st.lookup(t.value.id) or ("?",))[0] == "list" and self._plain(st.lookup(t.value.id)) is not None \
+                        and is_const(self.ev(t.slice, st), int) and not isinstance(t.slice, ast.Slice) and -len(st.lookup(t.value.id)[1]) <= self.ev(t.slice, st)[1] < len(st.lookup(t.value.id)[1]):
+                    cur = st.lookup(t.value.id)
+                    i = self.ev(t.slice, st)[1] % len(cur[1])
+                    self._rebind_container(t.value.id, cur, ("list", tuple(x for k, x in enumerate(cur[1]) if k != i)), st)
                 else:
                     self._event("store", st, self.ev(t, st), ("unknown", 0, "deleted"))
             return st
@@ -606,7 +938,43 @@ class SymEx:
         t = truth(self.ev(node.test, st.copy()))
         if t is False:
             return self._block(node.orelse, st)
+        if t is True and self.unroll:
+            return self._concrete_while(node, st)
         return self._generic_loop(node, st, "while", self.uid(), None)
+
+    def _concrete_while(self, node: ast.While, st: State) -> State:
+        """A `while` loop whose test is decided by the (concrete) values in every iteration: executed iteration by iteration."""
+        frame = self._stack[-1]
+        for _ in range(self.unroll + 1):
+            t = truth(self.ev(node.test, st))
+            if t is False:
+                return self._block(node.orelse, st)
+            if t is None or _ == self.unroll:
+                break
+            rec = {"continue": [], "break": [], "pc": st.pc}
+            frame.loops.append(rec)
+            st = self._block(node.body, st)
+            frame.loops.pop()
+            if rec["break"]:
+                if st.status is None or rec["continue"] or len(rec["break"]) > 1 or rec["break"][0].pc != rec["pc"]:
+                    break  # a break under a symbolic condition
+                st = rec["break"][0]
+                st.status = None
+                return st
+            if rec["continue"]:
+                if st.status is None or len(rec["continue"]) > 1 or rec["continue"][0].pc != rec["pc"]:
+                    break
+                st = rec["continue"][0]
+                st.status = None
+            if st.status is not None:
+                return st
+        # not decided within the bound: everything the loop assigns is unknown
+        self.imprecise.append(f"{frame.fn.qual if frame.fn else '?'}: `while {unparse(node.test)[:40]}` is not decided within {self.unroll} concrete iterations")
+        for name in sorted(self._assigned_names(node.body)):
+            if st.lookup(name) is not None:
+                st.store(name, self.unknown(f"`{name}` after an undecided loop"))
+        st.status = None
+        return st
 
     def _generic_loop(self, node, st: State, kind: str, uid: int, each) -> State:
         frame = self._stack[-1]
@@ -618,9 +986,10 @@ class SymEx:
             old = st.lookup(name)
             if old is None:
                 continue
-            if old[0] == "list" and not _rebinds(node.body, name):
+            if old[0] in {"list", "set", "dict"} and not _rebinds(node.body, name):
                 accs[name] = old
-                st.store(name, ("list", old[1] + (("star", ("carried", name, uid)),)))
+                marker = ("star", ("carried", name, uid))
+                self._replace_everywhere(old, (old[0], old[1] + ((marker, NONE) if old[0] == "dict" else marker,)), st)
             else:
                 info.init[name] = old
                 st.store(name, ("carried", name, uid))
@@ -636,10 +1005,15 @@ class SymEx:
         rec = {"continue": [], "break": [], "pc": body_st.pc}
         frame.loops.append(rec)
         self._loopctx += (uid,)
+        n_yields = len(frame.yields)
         end = self._block(node.body, body_st)
         self._loopctx = self._loopctx[:-1]
         frame.loops.pop()
         info.events = self.events[n_ev:]
+        if len(frame.yields) > n_yields:
+            # what one generic iteration yields is yielded for every element
+            wrap_y = each if each is not None else ("each", ("while", uid), uid)
+            frame.yields[n_yields:] = [("foreach", wrap_y, y) for y in frame.yields[n_yields:]]
         live = ([end] if end.status is None else []) + rec["continue"] + rec["break"]
         if live:
             merged = self._merge(live) if len(live) > 1 else live[0]
@@ -649,8 +1023,9 @@ class SymEx:
                     info.end[name] = v
             for name, old in accs.items():
                 v = merged.lookup(name)
-                prefix = old[1] + (("star", ("carried", name, uid)),)
-                if v is not None and v[0] == "list" and v[1][: len(prefix)] == prefix:
+                marker = ("star", ("carried", name, uid))
+                prefix = old[1] + ((marker, NONE) if old[0] == "dict" else marker,)
+                if v is not None and v[0] == old[0] and v[1][: len(prefix)] == prefix:
                     info.extras[name] = v[1][len(prefix):]
                 else:
                     info.extras[name] = None
@@ -662,13 +1037,45 @@ class SymEx:
                 after.store(name, self.unknown(f"`{name}` is rebuilt inside a loop"))
             else:
                 wrap = each if each is not None else ("each", ("while", uid), uid)
-                after.store(name, ("list", old[1] + tuple(("foreach", wrap, x) for x in (extra or ()))))
+                cur = after.lookup(name)
+                grown = (old[0], old[1] + tuple((("foreach", wrap, x[0]), x[1]) if old[0] == "dict" else ("foreach", wrap, x) for x in (extra or ())))
+                if cur is not None:
+                    self._replace_everywhere(cur, grown, after)  # aliases of the accumulator see the same object
+                else:
+                    after.store(name, grown)
         for name in info.init:
             end_v = info.end.get(name)
-            if end_v is not None and end_v == ("carried", name, uid):
+            head = ("carried", name, uid)
+            if end_v is not None and end_v == head:
                 after.store(name, info.init[name])  # not changed by the body
+            elif (kind == "foreach" and end_v is not None and not rec["break"] and end_v[0] == "fold" and end_v[2] == head
+                  and not contains(("tuple", (end_v[1], end_v[3])), head)
+                  and not any(x[0] in {"carried", "carried-out", "unknown"} and x != head and x not in _fold_heads(end_v) for x in subterms(end_v))):
+                # a nested accumulation (`for a in xs: for b in f(a): acc = g(acc, b)`): the inner loop folds from the
+                # accumulator of the outer one, so both loops are ONE fold over (a, b)
+                after.store(name, ("fold", (each, *end_v[1]), info.init[name], end_v[3], end_v[4]))
+            elif (kind == "foreach" and end_v is not None and not rec["break"]
+                  and not any(x[0] in {"carried", "carried-out", "unknown"} and x != head and x not in _fold_heads(end_v) for x in subterms(end_v))):
+                # an accumulation `acc = f(acc, element)`: the left fold of one generic step over the iterable
+                after.store(name, ("fold", (each,), info.init[name], end_v, head))
             else:
                 after.store(name, ("carried-out", name, uid))
+        if live:
+            # containers that a callee of the body extended in place (the body only shows a call): what one generic
+            # iteration adds is added for every element
+            wrap = each if each is not None else ("each", ("while", uid), uid)
+            for name, oldv in st.snapshot().items():
+                if name in accs or name in info.init or not isinstance(oldv, tuple) or oldv[0] not in {"list", "dict", "set"}:
+                    continue
+                newv = merged.lookup(name)
+                if newv is None or newv is oldv or newv == oldv:
+                    continue
+                if newv[0] == oldv[0] and newv[1][: len(oldv[1])] == oldv[1]:
+                    extra = newv[1][len(oldv[1]):]
+                    grown = (oldv[0], oldv[1] + tuple((("foreach", wrap, x[0]), x[1]) if oldv[0] == "dict" else ("foreach", wrap, x) for x in extra))
+                else:
+                    grown = self.unknown(f"`{name}` is modified inside a loop")
+                self._replace_everywhere(oldv, grown, after)
         for name in assigned:
             if name not in accs and name not in info.init:
                 after.store(name, ("carried-out", name, uid))
@@ -689,8 +1096,21 @@ class SymEx:
             if any(isinstance(t, ast.Starred) for t in target.elts):
                 seq = self.as_items(v)
                 if seq is None:
-                    for t in target.elts:
-                        self._assign(t, self.unknown("starred unpacking of a sequence of unknown length"), st)
+                    # `a, b, *rest = v` with v of unknown length: the names in front of the star are the first elements
+                    # in iteration order (`item(v, k)`, as for a plain unpacking); the star and what follows it are unknown
+                    s = next(i for i, t in enumerate(target.elts) if isinstance(t, ast.Starred))
+                    plain = v[0] not in {"phi", "unknown", "const"} and not (v[0] in {"tuple", "list"} and any(x[0] in {"foreach", "star", "when"} for x in v[1]))
+                    after = n - s - 1
+                    for k, t in enumerate(target.elts):
+                        if k < s and plain:
+                            self._assign(t, self._item(v, k), st)
+                        elif k == s and plain:
+                            # the starred name: the slice between the named elements (`*rest, last = xs` -> xs[:-1])
+                            self._assign(t, ("sub", v, ("slice", ("const", s) if s else NONE, ("const", -after) if after else NONE, NONE)), st)
+                        elif plain:
+                            self._assign(t, ("sub", v, ("const", k - n)), st)  # counted from the end
+                        else:
+                            self._assign(t, self.unknown("starred unpacking of a sequence of unknown length"), st)
                     return
                 s = next(i for i, t in enumerate(target.elts) if isinstance(t, ast.Starred))
                 after = n - s - 1
@@ -710,7 +1130,13 @@ class SymEx:
                 cur = st.lookup(base.id)
                 key = self.ev(target.slice, st)
                 if cur is not None and cur[0] == "dict":
-                    st.store(base.id, ("dict", tuple((k, x) for k, x in cur[1] if k != key) + ((key, self._cond_item(v, st)),)))
+                    # item assignment modifies the object itself, wherever the name is bound (an enclosing scope, an alias)
+                    self._rebind_container(base.id, cur, ("dict", tuple((k, x) for k, x in cur[1] if k != key) + ((key, self._cond_item(v, st)),)), st)
+                    return
+                if cur is not None and cur[0] == "list" and is_const(key, int) and self._plain(cur) is not None and -len(cur[1]) <= key[1] < len(cur[1]):
+                    items = list(cur[1])
+                    items[key[1]] = v
+                    self._rebind_container(base.id, cur, ("list", tuple(items)), st)
                     return
             tv = self.ev(ast.copy_location(_load(target), target), st)
             self._event("store", st, tv, v)
@@ -756,6 +1182,13 @@ class SymEx:
                 else:
                     out.append(x)
             return out
+        if v[0] == "global":
+            c = self.module_constant(v[1])
+            return list(c[1]) if c is not None and c[0] == "tuple" else None
+        if v[0] == "set" and not any(x[0] in {"foreach", "star", "when"} for x in v[1]) and len(v[1]) <= 1:
+            return list(v[1])  # iteration order of a set with at most one element
+        if v[0] == "dict" and not any(k[0] in {"foreach", "star", "when"} for k, _ in v[1]):
+            return [k for k, _ in v[1]]  # iterating a dict = its keys, in insertion order
         if v in self.lengths:
             return [self._item(v, k) for k in range(self.lengths[v])]
         if v[0] == "call" and v[1][0] == "builtin" and not v[3]:
@@ -809,13 +1242,77 @@ class SymEx:
         mod = node._module if hasattr(node, "_module") else (fn.module if fn else None)
         if mod is not None:
             q = self.tree.resolve(mod, node, None)
+            c = self.module_constant(q if q is not None else f"{mod.name}::{node.id}")
+            if c is not None and c[0] == "const":
+                return c  # a module-level name bound once to a number / text literal (`_Z = 3`, `_X, _Y, _Z = 1, 2, 3`)
             if q is not None:
                 return ("global", q)
+            if c is not None:
+                return ("global", f"{mod.name}::{node.id}")
         import builtins
 
         if hasattr(builtins, node.id):
             return ("builtin", node.id)
-        return ("global", node.id)
+        # neither a local, a variable of an enclosing activation, a module-level name, an import nor a builtin: the executor
+        # lost the binding (never a made-up global - a rule must not judge such a value)
+        return self.unknown(f"name `{node.id}` is not bound where it is read")
+
+    def module_constant(self, qual: str):
+        """The literal a module-level name of the package is bound to (exactly once, never rebound): a number / text
+        ``("const", v)`` or a tuple / list of literals ``("tuple", ...)``; None if the name is something else.  Scalars replace
+        the name; sequences keep their name (rules recognise tables such as index names by it) and are only expanded when
+        they are iterated / unpacked (``as_items``)."""
+        cache = self.__dict__.setdefault("_modconst", {})
+        if qual in cache:
+            return cache[qual]
+        cache[qual] = None
+        if "::" not in qual or "." in qual.split("::", 1)[1]:
+            return None
+        modname, name = qual.split("::", 1)
+        mod = self.tree.modules.get(modname)
+        if mod is None:
+            return None
+        hits = []
+        for n in ast.walk(mod.tree):
+            if isinstance(n, ast.Name) and n.id == name and isinstance(n.ctx, (ast.Store, ast.Del)):
+                hits.append(n)
+            elif isinstance(n, ast.Global) and name in n.names:
+                return None
+            elif isinstance(n, (ast.FunctionDef, ast.AsyncFunctionDef, ast.ClassDef)) and n.name == name:
+                return None
+        if len(hits) != 1:
+            return None
+        target = hits[0]
+        stmt = getattr(target, "_parent", None)
+        while stmt is not None and not isinstance(stmt, (ast.Assign, ast.AnnAssign)):
+            if not isinstance(stmt, (ast.Tuple, ast.List)):
+                return None
+            stmt = getattr(stmt, "_parent", None)
+        if stmt is None or stmt not in mod.tree.body or stmt.value is None:
+            return None
+
+        def literal(e):
+            if isinstance(e, ast.Constant) and isinstance(e.value, (int, float, str, bool, type(None))):
+                return ("const", e.value)
+            if isinstance(e, ast.UnaryOp) and isinstance(e.op, ast.USub) and isinstance(e.operand, ast.Constant) and isinstance(e.operand.value, (int, float)):
+                return ("const", -e.operand.value)
+            if isinstance(e, (ast.Tuple, ast.List)):
+                items = [literal(x) for x in e.elts]
+                return None if None in items else ("tuple", tuple(items))
+            return None
+
+        value = literal(stmt.value)
+        tgt = stmt.targets[0] if isinstance(stmt, ast.Assign) and len(stmt.targets) == 1 else stmt.target if isinstance(stmt, ast.AnnAssign) else None
+        if value is None or tgt is None:
+            return None
+        if isinstance(tgt, (ast.Tuple, ast.List)):
+            if value[0] != "tuple" or len(value[1]) != len(tgt.elts) or target not in tgt.elts:
+                return None
+            value = value[1][tgt.elts.index(target)]
+        elif tgt is not target:
+            return None
+        cache[qual] = value
+        return value
 
     def _ev_Attribute(self, node, st):
         head = node
@@ -828,9 +1325,18 @@ class SymEx:
                 if q is not None:
                     return ("global", q)
         base = self.ev(node.value, st)
+        return self._attr(base, node.attr)
+
+    def _attr(self, base, name: str):
         if base[0] == "phi":
-            return ("phi", tuple((p, ("attr", x, node.attr)) for p, x in base[1]))
-        return ("attr", base, node.attr)
+            return ("phi", tuple((p, self._attr(x, name)) for p, x in base[1]))
+        if base[0] == "call" and base[1][0] == "global":
+            v = self.object_attr(base, name)
+            if v is not None:
+                return v
+        if self.stubs and ("attr", base, name) in self.stubs:
+            return self.stubs[("attr", base, name)]
+        return ("attr", base, name)
 
     def _ev_Subscript(self, node, st):
         base = self.ev(node.value, st)
@@ -840,9 +1346,11 @@ class SymEx:
             if seq is not None and all(is_const(p, int) or p == NONE for p in parts):
                 return (base[0] if base[0] in {"tuple", "list"} else "tuple", tuple(seq[slice(*[p[1] for p in parts])]))
             return ("sub", base, ("slice", *parts))
-        idx = self.ev(node.slice, st)
+        return self._subscript(base, self.ev(node.slice, st))
+
+    def _subscript(self, base, idx):
         if is_const(idx, int):
-            seq = self._plain(base)
+            seq = self._plain(base) if base[0] != "global" else None  # an entry of a NAMED table keeps the name of the table
             if seq is not None and base[0] != "dict" and -len(seq) <= idx[1] < len(seq):
                 return seq[idx[1]]
         if base[0] == "dict":
@@ -896,12 +1404,31 @@ class SymEx:
     def _binop(self, op: str, a, b):
         if is_const(a, int, float) and is_const(b, int, float) and op in {"+", "-", "*"}:
             return ("const", {"+": a[1] + b[1], "-": a[1] - b[1], "*": a[1] * b[1]}[op])
+        if op == "%" and is_const(a, str):
+            import re as _re
+
+            holes = _re.findall(r"%[sdir]|%%", a[1])
+            vals = list(b[1]) if b[0] == "tuple" else [b]
+            if "%" not in _re.sub(r"%[sdir]|%%", "", a[1]) and len([h for h in holes if h != "%%"]) == len(vals) and not any(x[0] in {"star", "foreach"} for x in vals):
+                parts, rest, k = [], a[1], 0
+                for h in holes:
+                    head, rest = rest.split(h, 1)
+                    parts.append(("const", head))
+                    if h == "%%":
+                        parts.append(("const", "%"))
+                    else:
+                        parts.append(vals[k])
+                        k += 1
+                parts.append(("const", rest))
+                return self._fstr(parts)
         if op == "*":
             fa = a[1] if a[0] == "mul" else (a,)
             fb = b[1] if b[0] == "mul" else (b,)
             return ("mul", fa + fb)
         if op == "+" and a[0] in {"list", "tuple"} and b[0] == a[0]:
             return (a[0], a[1] + b[1])
+        if op == "+" and (is_const(a, str) or a[0] == "fstr" or is_const(b, str) or b[0] == "fstr") and a[0] not in {"phi", "unknown"} and b[0] not in {"phi", "unknown"}:
+            return self._fstr([a, b])  # text + anything is text (or a TypeError)
         if op == "+" and a[0] == "binop" and a[1] == "+" and is_const(a[3], int) and is_const(b, int):
             return self._binop("+", a[2], ("const", a[3][1] + b[1]))
         return ("binop", op, a, b)
@@ -940,6 +1467,14 @@ class SymEx:
                 pass
         if op in {"is", "is not"} and b == NONE and a[0] in {"tuple", "list", "dict", "set", "mul", "fstr"}:
             return ("const", op == "is not")
+        if op in {"==", "!="} and "sym" in (a[0], b[0]) and a[0] in {"sym", "const"} and b[0] in {"sym", "const"}:
+            return ("const", (a == b) == (op == "=="))  # symbols of a concrete instance are pairwise different atoms
+        if op in {"is", "is not"} and b == NONE and a[0] == "sym":
+            return ("const", op == "is not")
+        if op in {"in", "not in"} and a[0] == "sym":
+            seq = self._plain(b) if b[0] in {"tuple", "list", "set"} else None
+            if seq is not None and all(x[0] in {"sym", "const"} for x in seq):
+                return ("const", (a in seq) == (op == "in"))
         if op in {"in", "not in"} and is_const(a):
             seq = self._plain(b) if b[0] in {"tuple", "list", "set"} else None
             if seq is not None and all(is_const(x) for x in seq):
@@ -986,9 +1521,7 @@ class SymEx:
                 if p.conversion != -1 or p.format_spec is not None:
                     v = ("call", ("builtin", "format"), (v, ("const", (p.conversion, unparse(p.format_spec) if p.format_spec is not None else ""))), ())
                 parts.append(v)
-        if all(is_const(p, str, int) for p in parts):
-            return ("const", "".join(str(p[1]) for p in parts))
-        return ("fstr", tuple(parts))
+        return self._fstr(parts)
 
     def _ev_FormattedValue(self, node, st):
         return self.ev(node.value, st)
@@ -999,7 +1532,9 @@ class SymEx:
         return v
 
     def _ev_Lambda(self, node, st):
-        return ("lambda", unparse(node))
+        uid = self.uid()
+        self.lambdas[uid] = (node, st.scopes, self._stack[-1].fn if self._stack else None)
+        return ("lambda", unparse(node), uid)
 
     def _ev_Yield(self, node, st):
         v = self.ev(node.value, st) if node.value is not None else NONE
@@ -1026,6 +1561,9 @@ class SymEx:
         def rec(gens, st_, conds, eaches):
             if not gens:
                 item = make(st_)
+                if len(eaches) >= 2 and item == eaches[-1] and not any(contains(c[0], eaches[-1]) for c in conds):
+                    # `[x for xs in xss for x in xs]`: the inner loop only passes its elements on = `*xs`
+                    item, eaches = ("star", eaches[-1][1]), eaches[:-1]
                 for c in reversed(conds):
                     item = ("when", (c,), item)
                 for e in reversed(eaches):
@@ -1098,9 +1636,12 @@ class SymEx:
                     seq = self.as_items(v)
                     new = cur[1] + (tuple(self._cond_item(x, st) for x in seq) if seq is not None else (("star", v),))
                 self._rebind_container(func.value.id, cur, ("list", new), st)
+                self._event("grow", st, func.value.id, v)
                 return NONE
             if cur is not None and cur[0] == "set" and func.attr == "add" and len(node.args) == 1:
-                self._rebind_container(func.value.id, cur, ("set", cur[1] + (self._cond_item(self.ev(node.args[0], st), st),)), st)
+                v = self.ev(node.args[0], st)
+                self._rebind_container(func.value.id, cur, ("set", cur[1] + (self._cond_item(v, st),)), st)
+                self._event("grow", st, func.value.id, v)
                 return NONE
             if cur is not None and cur[0] == "dict" and func.attr == "update" and len(node.args) == 1 and not node.keywords:
                 other = self.ev(node.args[0], st)
@@ -1108,8 +1649,31 @@ class SymEx:
                     keys = {k for k, _ in other[1]}
                     self._rebind_container(func.value.id, cur, ("dict", tuple((k, x) for k, x in cur[1] if k not in keys) + other[1]), st)
                 else:
-                    self._rebind_container(func.value.id, cur, ("dict", cur[1] + ((("star", other), NONE),)), st)
+                    self._rebind_container(func.value.id, cur, ("dict", cur[1] + ((self._cond_item(("star", other), st), NONE),)), st)
                 return NONE
+            if cur is not None and cur[0] == "dict" and func.attr == "setdefault" and 1 <= len(node.args) <= 2 and not node.keywords:
+                key = self.ev(node.args[0], st)
+                for k, x in cur[1]:
+                    if k == key:
+                        return x
+                if not any(k[0] in {"star", "foreach", "when"} for k, _ in cur[1]) or True:
+                    # the key is not among the known entries: it is added (entries that came in through `update(<unknown>)`
+                    # may already hold it - then the earlier value stays, which the rules read as "registered")
+                    v = self.ev(node.args[1], st) if len(node.args) == 2 else NONE
+                    self._rebind_container(func.value.id, cur, ("dict", cur[1] + ((key, self._cond_item(v, st)),)), st)
+                    self._event("grow", st, func.value.id, ("tuple", (key, v)))
+                    return v
+            if (cur is not None and cur[0] in {"call", "seqop", "attr", "sub", "item", "param"} and not node.keywords
+                    and ((func.attr in {"remove", "discard"} and len(node.args) == 1) or (func.attr in {"reverse", "sort"} and not node.args))):
+                # in-place list operation on a sequence the executor does not know element by element: a sequence term
+                new = ("seqop", func.attr, cur, tuple(self.ev(a, st) for a in node.args))
+                self._event("mutate", st, func.value.id, func.attr, new[3])
+                self._rebind_container(func.value.id, cur, new, st)
+                return NONE
+            if cur is not None and cur[0] == "list" and not node.keywords and func.attr in {"remove", "reverse", "pop", "index", "insert", "clear", "copy"}:
+                done = self._concrete_list_op(func.value.id, cur, func.attr, [self.ev(a, st) for a in node.args], st)
+                if done is not None:
+                    return done[0]
             if cur is not None and cur[0] in {"list", "set", "dict"} and func.attr in {"remove", "pop", "clear", "discard", "insert", "sort", "reverse", "popitem", "setdefault", "update", "add"}:
                 args = tuple(self.ev(a, st) for a in node.args)
                 self._event("mutate", st, func.value.id, func.attr, args)
@@ -1119,7 +1683,11 @@ class SymEx:
         kwargs = []
         for k in node.keywords:
             if k.arg is None:
-                kwargs.append(("**", self.ev(k.value, st)))
+                kv = self.ev(k.value, st)
+                if kv[0] == "dict" and all(is_const(a, str) for a, _ in kv[1]):
+                    kwargs += [(a[1], strip_when(b)[1]) for a, b in kv[1]]  # `**shared` of a known dict = its keywords
+                else:
+                    kwargs.append(("**", kv))
             else:
                 kwargs.append((k.arg, self.ev(k.value, st)))
         kwargs = tuple(kwargs)
@@ -1137,64 +1705,150 @@ class SymEx:
                 target_q = self.tree.resolve(mod, func, scope) if mod is not None else None
                 if local is not None and target_q is not None:
                     self_val = local
-                if local is not None and target_q is None:
-                    pass
         fv = None
         if target_q is None:
             fv = self.ev(func, st)
-            if fv[0] == "localfunc":
-                target_q = fv[1]
-            elif fv[0] == "global":
-                target_q = fv[1]
-            elif fv[0] == "attr":
-                cq = self.class_of_value(fv[1])
-                if cq is not None:
-                    m = self.tree.lookup_method(self.tree.classes[cq], fv[2])
-                    if m is not None:
-                        target_q, self_val = m.qual, fv[1]
-            else:
-                cq = self.class_of_value(fv)
-                if cq is not None:
-                    m = self.tree.lookup_method(self.tree.classes[cq], "__call__")
-                    if m is not None:
-                        target_q, self_val = m.qual, fv
+            return self.apply(fv, args, kwargs, st, node)
+        return self._call(target_q, self_val, fv, args, kwargs, st, node)
+
+    def apply(self, fv, args, kwargs, st: State, node=None):
+        """The value of calling the function VALUE ``fv`` (a local/global function, a lambda, a ``functools.partial``,
+        a bound method or a callable instance of a package class, a builtin) with evaluated arguments."""
+        k = fv[0]
+        if k == "partial":
+            merged = dict(fv[3])
+            merged.update(dict(kwargs))
+            return self.apply(fv[1], fv[2] + tuple(args), tuple(merged.items()), st, node)
+        if k == "lambda" and fv[2] in self.lambdas:
+            lnode, scopes, definer = self.lambdas[fv[2]]
+            scopes = self._definer_scopes(definer, st) or scopes  # the variables of its definer as they are NOW
+            bound = self._bind_args(lnode.args, args, kwargs, False)
+            if bound is None or len(self._stack) > self.inline_depth + 4:
+                return ("call", fv, args, kwargs)
+            inner = State([dict(zip(_all_params(lnode), bound))] + scopes, st.pc)
+            return self.ev(lnode.body, inner)
+        if k == "localfunc" or (k == "global" and (fv[1] in self.tree.funcs or fv[1] in self.tree.classes)):
+            return self._call(fv[1], None, fv, args, kwargs, st, node)
+        if k == "builtin":
+            return self._builtin(fv[1], args, kwargs, st)
+        if k == "global":
+            return self._call(fv[1], None, fv, args, kwargs, st, node)
+        if k == "getter" and len(args) == 1 and not kwargs:
+            if fv[1] == "attrgetter" and isinstance(fv[2], str):
+                out = args[0]
+                for part in fv[2].split("."):
+                    out = self._attr(out, part)
+                return out
+            if fv[1] == "itemgetter":
+                return self._subscript(args[0], ("const", fv[2]))
+            if fv[1] in {"attrgetters", "itemgetters"}:
+                return ("tuple", tuple(self.apply(("getter", fv[1][:-1], what), args, (), st, node) for what in fv[2]))
+            if fv[1] == "methodcaller" and isinstance(fv[2], str):
+                return self.apply(self._attr(args[0], fv[2]), (), (), st, node)
+        if k == "attr":
+            cq = self.class_of_value(fv[1])
+            if cq is not None:
+                m = self.tree.lookup_method(self.tree.classes[cq], fv[2])
+                if m is not None:
+                    return self._call(m.qual, fv[1], fv, args, kwargs, st, node)
+            if fv[1] in {("param", "self"), ("param", "cls")} and self.root is not None and self.root.cls is not None and st.lookup(fv[1][1]) == fv[1]:
+                # `self.method` of the analysed class held as a value (`map(self.__register, groups)`): the call `self.method(...)`
+                m = self.tree.lookup_method(self.root.cls, fv[2])
+                if m is not None and "property" not in {unparse(d).split(".")[-1] for d in m.node.decorator_list}:
+                    return self._call(m.qual, fv[1], fv, args, kwargs, st, node)
+            lib = self._method_of_value(fv[1], fv[2], args, kwargs, st)
+            if lib is not None:
+                return lib
+            if fv[2] == "__getitem__" and len(args) == 1 and not kwargs:
+                return self._subscript(fv[1], args[0])
+            return ("call", fv, args, kwargs)
+        cq = self.class_of_value(fv)
+        if cq is not None:
+            m = self.tree.lookup_method(self.tree.classes[cq], "__call__")
+            if m is not None:
+                return self._call(m.qual, fv, fv, args, kwargs, st, node)
+        return ("call", fv, args, kwargs)
+
+    def _call(self, target_q, self_val, fv, args, kwargs, st: State, node=None):
+        fn = self._stack[-1].fn if self._stack else self.root
         if target_q is not None and target_q in self.tree.classes:
-            cinfo = self.tree.classes[target_q]
-            init = self.tree.lookup_method(cinfo, "__init__")
-            if init is not None:
-                bound = self.bind(init, args, kwargs, skip_first=True, st=st)
-                if bound is not None:
-                    return ("call", ("global", target_q), bound, ())
+            bound = self.ctor_bind(target_q, args, kwargs, st)
+            if bound is not None:
+                return ("call", ("global", target_q), bound, ())
             return ("call", ("global", target_q), args, kwargs)
         if target_q is not None and target_q in self.tree.funcs:
             callee = self.tree.funcs[target_q]
             decos = {unparse(d).split(".")[-1].split("(")[0] for d in callee.node.decorator_list}
             is_method = callee.cls is not None and callee.outer is None and "staticmethod" not in decos
+            if is_method and "classmethod" in decos:
+                # `Cls.make(...)` / `cls.make(...)` / `obj.make(...)`: the first parameter is the class itself
+                owner = self.class_of_value(self_val) if self_val is not None else None
+                self_val = ("global", owner or callee.cls.qual)
             via_instance = is_method and self_val is not None
             bound = self.bind(callee, args, kwargs, skip_first=via_instance, st=st)
-            if bound is not None and any(v[0] in {"list", "dict", "set"} and p in self._assigned_names(callee.node.body)
-                                         for p, v in zip(_all_params(callee.node)[1 if via_instance else 0:], bound)):
-                # the callee modifies a container of the caller in place: not modelled across the call
-                for a in node.args:
-                    if isinstance(a, ast.Name) and st.lookup(a.id) is not None and st.lookup(a.id)[0] in {"list", "dict", "set"}:
-                        st.store(a.id, self.unknown(f"`{a.id}` may be modified in place by {callee.name}()"))
+            inline = bound is not None and self._may_inline(callee, fn, self_val) and not (({"property", "singledispatch", "overload"} | (set() if self.inline_cached else {"cache", "lru_cache"})) & decos)
+            pnames = _all_params(callee.node)[1 if via_instance else 0:]
+            if bound is not None and not inline and any(v[0] in {"list", "dict", "set"} and p in self._assigned_names(callee.node.body) for p, v in zip(pnames, bound)):
+                # the callee modifies a container of the caller in place and is not executed here: the container is unknown afterwards
+                for p, v in zip(pnames, bound):
+                    if v[0] in {"list", "dict", "set"} and p in self._assigned_names(callee.node.body):
+                        self._replace_everywhere(v, self.unknown(f"a container may be modified in place by {callee.name}()"), st)
                 bound = None
-            if bound is not None and self._may_inline(callee, fn) and not ({"property", "cache", "lru_cache", "singledispatch", "overload"} & decos):
-                env = dict(zip(_all_params(callee.node)[1 if via_instance else 0:], bound))
+            if inline:
+                env = dict(zip(pnames, bound))
                 if via_instance:
                     env[_all_params(callee.node)[0]] = self_val
+                outer_list = None
                 if callee.outer is not None:
-                    # nested function: sees (and with nonlocal: writes) the scopes of its definer
-                    depth = _outer_depth(callee, [f.fn for f in self._stack])
-                    scopes = [env] + (st.scopes[depth:] if depth is not None else [])
+                    # nested function: sees (and with nonlocal: writes) the scopes of the running activation of its definer,
+                    # also when it is called from somewhere else (handed to a helper, stored in a partial)
+                    view = self._definer_view(callee.outer, st)
+                    if view is None:
+                        # the definer has returned (the closure escaped): the variables of the activation that made it
+                        acts = self.escaped.get(callee.qual, [])
+                        if len(acts) != 1:
+                            return self.unknown(f"{callee.name}() is called outside its definer ({len(acts)} activations of the definer are known)")
+                        view = (acts[0], 0)
+                    outer_list, off = view
+                    scopes = [env] + outer_list[off:]
                 else:
                     scopes = [env]
+                held = [(sc, k, x) for sc in scopes[1:] for k, x in sc.items() if isinstance(x, tuple) and x and x[0] in {"list", "dict", "set"}]
+                n_outer = len(scopes) - 1
                 inner = State(scopes, st.pc)
-                value, final = self._run_body(callee, inner)
-                if callee.outer is not None and depth is not None and final.status != "raise":
-                    st.scopes[depth:] = final.scopes[1:]
+                self._live.append(st)
+                try:
+                    value, final = self._run_body(callee, inner)
+                finally:
+                    self._live.pop()
+                if outer_list is not None and final.status != "raise" and len(final.scopes) - 1 == n_outer:
+                    outer_list[off:] = final.scopes[1:]
+                    # the suspended activation of the definer itself (if the view was taken from a descendant's state)
+                    fns = [f.fn for f in self._stack]
+                    for k in range(len(fns) - 1, -1, -1):
+                        if fns[k] is callee.outer and k < len(self._live) and self._live[k].scopes is not outer_list and len(self._live[k].scopes) >= n_outer > 0:
+                            self._live[k].scopes[len(self._live[k].scopes) - n_outer:] = final.scopes[1:]
+                            break
+                    # containers of the definer that the closure modified in place: everything else that holds the identical
+                    # object (the caller got it as a second return value, an alias) sees the modification
+                    for sc, k, x in held:
+                        pos = next((i for i, y in enumerate(scopes) if y is sc), None)
+                        now = final.scopes[pos].get(k) if pos is not None and pos < len(final.scopes) else None
+                        if now is not None and now is not x:
+                            self._replace_everywhere(x, now, st)
                 if final.status == "raise":
                     st.status = "raise"
+                else:
+                    # containers handed in by the caller and modified in place by the callee: the caller (everything that
+                    # holds the identical object) sees the modification
+                    for p, v in zip(pnames, bound):
+                        if v[0] in {"list", "dict", "set"}:
+                            after = final.scopes[0].get(p)
+                            if after is not None and after is not v:
+                                if _rebinds(callee.node.body, p):
+                                    after = self.unknown(f"`{p}` is rebound inside {callee.name}()")
+                                self._replace_everywhere(v, after, st)
+                                value = _replace_identity(value, v, after)
                 st.pc = final.pc if len(final.pc) >= len(st.pc) and final.pc[: len(st.pc)] == st.pc else st.pc
                 return value
             f = ("method", target_q, self_val) if via_instance else (("localfunc", target_q) if callee.outer is not None else ("global", target_q))
@@ -1202,10 +1856,16 @@ class SymEx:
                 v = ("call", f, bound, ())
             else:
                 v = ("call", f, args, kwargs)
+            if self.stubs and v in self.stubs:
+                return self.stubs[v]
             if callee.outer is not None or any(fr.fn is callee for fr in self._stack):
                 self._event("localcall", st, v, st.snapshot())
                 # the body was not executed: what it writes through `nonlocal` is unknown from here on
                 written = {name for n in ast.walk(callee.node) if isinstance(n, ast.Nonlocal) for name in n.names}
+                # ... and so are the containers of the enclosing scopes that it fills / modifies in place
+                own = set(_all_params(callee.node)) | {n.id for n in _walk_own(callee.node) if isinstance(n, ast.Name) and isinstance(n.ctx, ast.Store)}
+                written |= {name for name in self._assigned_names(callee.node.body) if name not in own - written
+                            and (st.lookup(name) or ("?",))[0] in {"list", "dict", "set"}}
                 if written and not any(fr.fn is callee for fr in self._stack):
                     uid = self.uid()
                     for name in sorted(written):
@@ -1221,26 +1881,124 @@ class SymEx:
 
                 if hasattr(builtins, name):
                     return self._builtin(name, args, kwargs, st)
+            lib = self._library(name, args, kwargs, st)
+            if lib is not None:
+                return lib
             return ("call", ("global", target_q), args, kwargs)
-        if fv is None:
-            fv = self.ev(func, st)
-        if fv[0] == "builtin":
-            return self._builtin(fv[1], args, kwargs, st)
         return ("call", fv, args, kwargs)
 
+    def _chain_len(self, g: FuncInfo | None) -> int | None:
+        """Number of scopes in the chain of an activation of ``g`` (its own + those of its lexical ancestors)."""
+        n = 0
+        while g is not None:
+            if g is self.root and self._root_len is not None:
+                return n + self._root_len
+            n += 1
+            g = g.outer
+        return n
+
+    def _definer_view(self, definer: FuncInfo | None, st: State):
+        """``(scope list, offset)`` of the scope chain of the running activation of ``definer`` as it is NOW: the tail of the
+        current state if the executing function is ``definer`` or nested in it (the current state carries the latest
+        version of those scopes), else that of the suspended state of its frame; None if it is not running."""
+        if definer is None:
+            return None
+        fns = [f.fn for f in self._stack]
+        n = self._chain_len(definer)
+        f = fns[-1] if fns else None
+        while f is not None:
+            if f is definer:
+                if n is not None and len(st.scopes) >= n:
+                    return st.scopes, len(st.scopes) - n
+                break
+            f = f.outer
+        for k in range(len(fns) - 1, -1, -1):
+            if fns[k] is definer and k < len(self._live):
+                lst = self._live[k].scopes
+                if n is not None and len(lst) >= n:
+                    return lst, len(lst) - n
+        return None
+
+    def _definer_scopes(self, definer: FuncInfo | None, st: State):
+        view = self._definer_view(definer, st)
+        return None if view is None else view[0][view[1]:] if definer is not (self._stack[-1].fn if self._stack else None) else st.scopes
+
+    def _replace_everywhere(self, old, new, st: State) -> None:
+        """Everything in the running scopes that holds the identical object ``old`` (also nested in other values) holds ``new``."""
+        for s in [st, *self._live]:
+            for scope in s.scopes:
+                for key, v in list(scope.items()):
+                    nv = _replace_identity(v, old, new)
+                    if nv is not v:
+                        scope[key] = nv
+
+    def _concrete_list_op(self, name: str, cur, op: str, args: list, st: State):
+        """In-place operation on a list whose elements are all known: executed.  ``(result,)`` or None if not decidable
+        (an element that is looked up must be structurally present, and everything in front of it must be an atom -
+        literal or symbol - that is certainly different)."""
+        items = self._plain(cur)
+        if items is None:
+            return None
+        atom = lambda x: x[0] in {"const", "sym"}  # noqa: E731
+
+        def position(x):
+            for i, it in enumerate(items):
+                if it == x:
+                    return i
+                if not (atom(it) and atom(x)):
+                    return None  # could be equal at run time
+            return None
+
+        new, result = None, NONE
+        if op == "reverse" and not args:
+            new = list(reversed(items))
+        elif op == "clear" and not args:
+            new = []
+        elif op == "copy" and not args:
+            return (("list", tuple(items)),)
+        elif op in {"remove", "index"} and len(args) == 1:
+            i = position(args[0])
+            if i is None:
+                return None
+            if op == "index":
+                return (("const", i),)
+            new = items[:i] + items[i + 1:]
+        elif op == "pop" and len(args) <= 1 and items:
+            i = args[0][1] if args and is_const(args[0], int) else -1 if not args else None
+            if i is None or not -len(items) <= i < len(items):
+                return None
+            result = items[i]
+            new = [x for k, x in enumerate(items) if k != i % len(items)]
+        elif op == "insert" and len(args) == 2 and is_const(args[0], int):
+            new = list(items)
+            new.insert(args[0][1], args[1])
+        if new is None:
+            return None
+        self._event("mutate", st, name, op, tuple(args))
+        self._rebind_container(name, cur, ("list", tuple(new)), st)
+        return (result,)
+
     def _rebind_container(self, name: str, old, new, st: State) -> None:
-        # aliases (`b = a`) hold the identical object: they see the mutation as well
+        # aliases (`b = a`) and values that contain the object (a partial that was given the list) hold the identical
+        # object: they see the mutation as well
         hit = False
         for s in st.scopes:
             for other, v in list(s.items()):
                 if v is old:
                     s[other] = new
                     hit = hit or other == name
+                elif isinstance(v, tuple) and v and v[0] in {"partial", "tuple", "call"}:
+                    nv = _replace_identity(v, old, new)
+                    if nv is not v:
+                        s[other] = nv
         if not hit:
             st.store(name, new)
 
     def _builtin(self, name: str, args, kwargs, st):
         v = ("call", ("builtin", name), args, kwargs)
+        if name == "sum" and 1 <= len(args) <= 2 and not (kwargs and (len(args) == 2 or kwargs[0][0] != "start" or len(kwargs) > 1)):
+            start = args[1] if len(args) == 2 else kwargs[0][1] if kwargs else ("const", 0)
+            return self._fold(lambda acc, x: self._binop("+", acc, x), args[0], start, "sum") or v
         if not kwargs:
             if name == "len" and len(args) == 1:
                 seq = self._plain(args[0])
@@ -1252,35 +2010,352 @@ class SymEx:
                     return (name, tuple(seq))
             if name in {"list", "tuple", "dict", "set"} and not args:
                 return (name, ())
+            if name == "dict" and len(args) == 1:
+                if args[0][0] == "dict":
+                    return ("dict", args[0][1])  # a copy
+                seq = self._plain(args[0])
+                if seq is not None and all(x[0] == "tuple" and len(x[1]) == 2 for x in seq):
+                    out: dict = {}
+                    for x in seq:
+                        out[x[1][0]] = x[1][1]
+                    return ("dict", tuple(out.items()))
+                seq = self.as_items(args[0])
+                if seq is not None:
+                    # dict(chain.from_iterable(m.items() for m in ...)) = the dict that is updated with every m
+                    entries = []
+                    for x in seq:
+                        es, cs, plain = unwrap(x)
+                        if plain[0] == "star" and plain[1][0] == "call" and plain[1][1][0] == "attr" and plain[1][1][2] == "items" and not plain[1][2]:
+                            k, val = ("star", plain[1][1][1]), NONE
+                        elif plain[0] == "tuple" and len(plain[1]) == 2:
+                            k, val = plain[1]
+                        else:
+                            entries = None
+                            break
+                        if cs:
+                            k = ("when", cs, k)
+                        for e in reversed(es):
+                            k = ("foreach", e, k)
+                        entries.append((k, val))
+                    if entries is not None:
+                        return ("dict", tuple(entries))
+            if name == "map" and len(args) >= 2:
+                return self._map(args[0], args[1:], st) or v
+            if name == "filter" and len(args) == 2:
+                return self._filter(args[0], args[1], st) or v
+            if name == "str" and len(args) == 1 and (is_const(args[0], str, int) or args[0][0] == "fstr"):
+                return ("const", str(args[0][1])) if is_const(args[0]) else args[0]
+            if name == "sorted" and len(args) == 1:
+                seq = self._plain(args[0])
+                if seq is not None and all(is_const(x, int, float, str) for x in seq):
+                    try:
+                        return ("list", tuple(sorted(seq, key=lambda x: x[1])))
+                    except TypeError:
+                        pass
+            if name == "next" and len(args) == 1 and args[0][0] == "call" and args[0][1] == ("builtin", "iter") and len(args[0][2]) == 1:
+                seq = self._plain(args[0][2][0])
+                if seq:
+                    return seq[0]
         return v
+
+    # ------------------------------------------------- higher-order functions
+    def _elements(self, v):
+        """``[(wrappers, element)]`` for the elements of an iterable: known elements one by one, the elements of a
+        comprehension / generic loop as one generic element below its ``foreach`` / ``when`` wrappers, an unknown iterable
+        as ``("each", v, n)``.  None if the iterable contains starred parts of unknown length."""
+        seq = self.as_items(v)
+        if seq is None:
+            if v[0] in {"const", "dict", "set", "phi", "unknown", "carried-out", "fold"}:
+                return None
+            each = ("each", v, self.uid())
+            return [((("foreach", each),), each)]
+        out = []
+        for x in seq:
+            wraps = ()
+            while isinstance(x, tuple) and x and x[0] in {"foreach", "when"}:
+                wraps += ((x[0], x[1]),)
+                x = x[2]
+            if x[0] == "star":
+                # `[*f(t) for t in ts]` / `chain.from_iterable(map(f, ts))`: one generic element of the starred iterable
+                if x[1][0] in {"const", "dict", "set", "phi", "unknown", "carried-out", "fold"}:
+                    return None
+                inner = ("each", x[1], self.uid())
+                wraps += (("foreach", inner),)
+                x = inner
+            out.append((wraps, x))
+        return out
+
+    @staticmethod
+    def _wrap(wraps, x):
+        for kind, w in reversed(wraps):
+            x = (kind, w, x)
+        return x
+
+    def _map(self, f, iterables, st):
+        cols = [self._elements(it) for it in iterables]
+        if any(c is None for c in cols):
+            return None
+        if len(cols) > 1 and (len({len(c) for c in cols}) != 1 or any(w for c in cols for w, _ in c)):
+            return None
+        return ("list", tuple(self._wrap(cols[0][i][0], self.apply(f, tuple(c[i][1] for c in cols), (), st)) for i in range(len(cols[0]))))
+
+    def _filter(self, f, iterable, st):
+        col = self._elements(iterable)
+        if col is None:
+            return None
+        out = []
+        for wraps, x in col:
+            test = x if f == NONE else self.apply(f, (x,), (), st)
+            t = truth(test)
+            if t is False:
+                continue
+            out.append(self._wrap(wraps + ((("when", (normal(test),)),) if t is None else ()), x))
+        return ("list", tuple(out))
+
+    def _fold(self, step, iterable, init, name: str):
+        """Left fold of ``step(accumulator, element)`` over an iterable: known elements are applied one after the other,
+        the elements of a comprehension / an unknown iterable give ``("fold", eaches, init, step value, head)`` where
+        ``head = ("carried", name, n)`` stands for the accumulator before the step."""
+        col = self._elements(iterable)
+        if col is None:
+            return None
+        acc = init
+        for wraps, x in col:
+            if not wraps:
+                acc = step(acc, x)
+                continue
+            head = ("carried", f"<{name}>", self.uid())
+            value = step(head, x)
+            conds = tuple(c for kind, w in wraps if kind == "when" for c in w)
+            if conds:
+                value = ("when", conds, value)
+            acc = ("fold", tuple(w for kind, w in wraps if kind == "foreach"), acc, value, head)
+        return acc
+
+    def _library(self, name: str, args, kwargs, st):
+        """Standard-library combinators that only re-spell a loop, a call or a tuple."""
+        if name == "functools.partial" and args:
+            return ("partial", args[0], tuple(args[1:]), tuple(kwargs))
+        if name == "functools.reduce" and 2 <= len(args) <= 3 and not kwargs:
+            if len(args) == 2:
+                seq = self._plain(args[1])
+                if seq is None:
+                    # elements not known one by one (a comprehension / an unknown iterable): without an initial value
+                    # `reduce(operator.mul, xs)` of a non-empty xs is the fold from the neutral element (an empty xs raises);
+                    # what the step function does is probed on two symbols (operator.mul, a lambda, a local def)
+                    a, b = ("sym", "<reduce a>"), ("sym", "<reduce b>")
+                    probe = self.apply(args[0], (a, b), (), st)
+                    neutral = ("const", 1) if probe == ("mul", (a, b)) else ("const", 0) if probe == ("binop", "+", a, b) else None
+                    if neutral is None:
+                        return None
+                    return self._fold(lambda acc, x: self.apply(args[0], (acc, x), (), st), args[1], neutral, "reduce")
+                if not seq:
+                    return None
+                return self._fold(lambda acc, x: self.apply(args[0], (acc, x), (), st), (args[1][0] if args[1][0] in {"list", "tuple"} else "list", tuple(seq[1:])), seq[0], "reduce")
+            return self._fold(lambda acc, x: self.apply(args[0], (acc, x), (), st), args[1], args[2], "reduce")
+        if name in {"itertools.chain", "itertools.chain.from_iterable"} and not kwargs:
+            parts = list(args)
+            if name.endswith("from_iterable"):
+                if len(args) != 1:
+                    return None
+                col = self._elements(args[0])
+                if col is None:
+                    return None
+                out = []
+                for wraps, x in col:
+                    inner = self.as_items(x) if not wraps else None
+                    out += inner if inner is not None else [self._wrap(wraps, ("star", x))]
+                return ("list", tuple(out))
+            out = []
+            for x in parts:
+                es, cs, plain = unwrap(x)
+                inner = self.as_items(plain) if not es and not cs else None
+                if inner is not None:
+                    out += inner
+                else:
+                    y = ("star", plain)
+                    if cs:
+                        y = ("when", cs, y)
+                    for e in reversed(es):
+                        y = ("foreach", e, y)
+                    out.append(y)
+            return ("list", tuple(out))
+        if name == "itertools.starmap" and len(args) == 2 and not kwargs:
+            col = self._elements(args[1])
+            if col is None:
+                return None
+            out = []
+            for wraps, x in col:
+                xs = self._plain(x)
+                if xs is None:
+                    n = self._arity(args[0])
+                    if n is None or x[0] in {"unknown", "phi", "const"}:
+                        return None
+                    xs = self.unpack(x, n)  # a generic element: as many components as the function has parameters
+                out.append(self._wrap(wraps, self.apply(args[0], tuple(xs), (), st)))
+            return ("list", tuple(out))
+        if name == "itertools.product" and args and not [k for k, _ in kwargs if k != "repeat"]:
+            cols = [self._plain(a) for a in args]
+            repeat = dict(kwargs).get("repeat", ("const", 1))
+            if all(c is not None for c in cols) and is_const(repeat, int) and 0 < repeat[1] <= 4:
+                import itertools
+
+                combos = list(itertools.product(*(cols * repeat[1])))
+                if len(combos) <= 256:
+                    return ("list", tuple(("tuple", tuple(c)) for c in combos))
+            return None
+        if name in {"operator.attrgetter", "operator.itemgetter", "operator.methodcaller"} and len(args) == 1 and not kwargs and is_const(args[0]):
+            return ("getter", name.split(".")[-1], args[0][1])
+        if name in {"operator.attrgetter", "operator.itemgetter"} and len(args) > 1 and not kwargs and all(is_const(a) for a in args):
+            # several attributes / items: the getter returns the tuple of them
+            return ("getter", name.split(".")[-1] + "s", tuple(a[1] for a in args))
+        if name in {"operator.mul", "operator.add", "operator.sub", "operator.matmul", "operator.truediv"} and len(args) == 2 and not kwargs:
+            return self._binop({"mul": "*", "add": "+", "sub": "-", "matmul": "@", "truediv": "/"}[name.split(".")[-1]], args[0], args[1])
+        if name == "operator.getitem" and len(args) == 2 and not kwargs:
+            return self._subscript(args[0], args[1])
+        if name == "math.prod" and 1 <= len(args) <= 2:
+            start = args[1] if len(args) == 2 else dict(kwargs).get("start", ("const", 1))
+            return self._fold(lambda acc, x: self._binop("*", acc, x), args[0], start, "prod")
+        return None
+
+    def _arity(self, fv) -> int | None:
+        """Number of positional parameters of a function value that takes nothing else."""
+        node = None
+        if fv[0] == "lambda" and fv[2] in self.lambdas:
+            node = self.lambdas[fv[2]][0].args
+        elif fv[0] in {"localfunc", "global"} and fv[1] in self.tree.funcs:
+            node = self.tree.funcs[fv[1]].node.args
+        if node is None or node.vararg or node.kwarg or node.kwonlyargs or node.defaults:
+            return None
+        return len(node.posonlyargs) + len(node.args)
+
+    def _method_of_value(self, base, attr: str, args, kwargs, st):
+        """Methods of known values that the executor folds: ``d.get(k, default)`` / ``d.items()`` ... of a known dict,
+        ``sep.join(parts)`` / ``template.format(...)`` of constant strings, ``xs.copy()``; ``dict.fromkeys(keys, v)`` is the
+        dict ``{k: v for k in keys}`` (the keys of a comprehension / generator keep their ``foreach`` / ``when`` wrappers)."""
+        if base == ("builtin", "dict") and attr == "fromkeys" and 1 <= len(args) <= 2 and not kwargs:
+            col = self._elements(args[0])
+            if col is not None:
+                value = args[1] if len(args) == 2 else NONE
+                return ("dict", tuple((self._wrap(wraps, x), value) for wraps, x in col))
+        if base[0] == "dict" and not kwargs and not any(k[0] in {"star", "foreach"} for k, _ in base[1]):
+            if attr == "get" and 1 <= len(args) <= 2:
+                for k, x in base[1]:
+                    if k == args[0]:
+                        return x
+                if is_const(args[0]) and all(is_const(k) for k, _ in base[1]):
+                    return args[1] if len(args) == 2 else NONE
+            if attr == "items" and not args:
+                return ("list", tuple(("tuple", (k, x)) for k, x in base[1]))
+            if attr == "keys" and not args:
+                return ("list", tuple(k for k, _ in base[1]))
+            if attr == "values" and not args:
+                return ("list", tuple(x for _, x in base[1]))
+        if base[0] in {"list", "dict", "set"} and attr == "copy" and not args and not kwargs:
+            return (base[0], base[1])
+        cq = self.class_of_value(base)
+        if cq is not None and attr in {"_asdict", "_fields"} and not args and not kwargs and not base[3]:
+            info = self.ctor_fields(cq)
+            if info is not None and len(info[0]) == len(base[2]) and "NamedTuple" in {b.split(".")[-1].split("::")[-1] for b in self.tree.classes[cq].bases}:
+                if attr == "_fields":
+                    return ("tuple", tuple(("const", n) for n in info[0]))
+                return ("dict", tuple((("const", n), x) for n, x in zip(info[0], base[2])))
+        if is_const(base, str) and attr == "join" and len(args) == 1 and not kwargs:
+            seq = self._plain(args[0])
+            if seq is not None:
+                parts = []
+                for i, x in enumerate(seq):
+                    if i and base[1]:
+                        parts.append(base)
+                    parts.append(x)
+                return self._fstr(parts)
+        if is_const(base, str) and attr == "format" and not any(k == "**" for k, _ in kwargs) and not any(a[0] == "star" for a in args):
+            import string
+
+            try:
+                fields = list(string.Formatter().parse(base[1]))
+            except ValueError:
+                fields = None
+            named, parts, auto = dict(kwargs), [], 0
+            for literal, field, spec, conv in fields or []:
+                if literal:
+                    parts.append(("const", literal))
+                if field is None:
+                    continue
+                if spec or conv:
+                    parts = None
+                    break
+                if field == "":
+                    field, auto = str(auto), auto + 1
+                v = args[int(field)] if field.isdigit() and int(field) < len(args) else named.get(field)
+                if v is None:
+                    parts = None
+                    break
+                parts.append(v)
+            if fields is not None and parts is not None:
+                return self._fstr(parts)
+        if base[0] == "getter":
+            return None
+        return None
+
+    def _fstr(self, parts):
+        """Normal form of built text: adjacent constants joined, nested f-strings flattened, ``str(x)`` = ``x``."""
+        flat = []
+        for x in parts:
+            if x[0] == "call" and x[1] == ("builtin", "str") and len(x[2]) == 1 and not x[3]:
+                x = x[2][0]
+            for y in (x[1] if x[0] == "fstr" else (x,)):
+                if is_const(y, str, int) and not isinstance(y[1], bool) and flat and is_const(flat[-1], str):
+                    flat[-1] = ("const", flat[-1][1] + str(y[1]))
+                elif is_const(y, str, int) and not isinstance(y[1], bool):
+                    flat.append(("const", str(y[1])))
+                else:
+                    flat.append(y)
+        flat = [x for x in flat if x != ("const", "")]
+        if all(is_const(x, str) for x in flat):
+            return ("const", "".join(x[1] for x in flat))
+        return ("fstr", tuple(flat))
 
     def class_of_value(self, v) -> str | None:
         if isinstance(v, tuple) and v[0] == "call" and v[1][0] == "global" and v[1][1] in self.tree.classes:
             return v[1][1]
         return None
 
-    def _may_inline(self, callee: FuncInfo, caller: FuncInfo | None) -> bool:
+    def _may_inline(self, callee: FuncInfo, caller: FuncInfo | None, self_val=None) -> bool:
         if callee.qual in self.atoms or callee.name in self.atoms:
             return False
-        if len(self._stack) > self.inline_depth:
+        if callee.cls is not None and (callee.cls.qual in self.atoms or callee.cls.name in self.atoms):
             return False
-        if any(fr.fn is callee for fr in self._stack):
+        if len(self._stack) > self.inline_depth + self.unroll:
             return False
-        if _calls_itself(callee):
+        if self.unroll:
+            if sum(1 for fr in self._stack if fr.fn is callee) > self.unroll:
+                return False  # concrete recursion: bounded number of activations
+        elif any(fr.fn is callee for fr in self._stack) or _calls_itself(callee):
             return False
         root = self._stack[0].fn if self._stack else caller
         if callee.outer is not None:
             return True
         if callee.cls is not None and root is not None and root.cls is not None and callee.cls in self.tree.mro(root.cls):
             return True
+        if callee.cls is not None and self_val is not None and self.class_of_value(self_val) is not None and root is not None and callee.module is root.module:
+            return self.inline_modules  # method of an object that was constructed here (its class lives in the same module)
+        if callee.cls is not None and root is not None and callee.module is root.module and self.inline_modules:
+            decos = {unparse(d).split(".")[-1].split("(")[0] for d in callee.node.decorator_list}
+            if decos & {"classmethod", "staticmethod"} and callee.cls.name.startswith("_"):
+                return True  # alternative constructor / static helper of a private helper class of the module
+        if self.inline_modules and root is not None and callee.cls is None and callee.module is not root.module:
+            # a PRIVATE helper that lives in another module of the package (moved into a `_util` module) is still a helper
+            return callee.name.startswith("_") and not callee.name.startswith("__") and callee.qual.split(".")[0] == root.qual.split(".")[0]
         return self.inline_modules and root is not None and callee.module is root.module and callee.cls is None
 
     def bind(self, callee: FuncInfo, args, kwargs, skip_first: bool, st: State | None = None):
-        """Values of the callee's parameters in declaration order, or None when the call cannot be bound."""
-        a = callee.node.args
-        if a.vararg is not None or a.kwarg is not None:
-            return None
-        if any(x[0] == "star" for x in args) or any(k == "**" for k, _ in kwargs):
+        """Values of the callee's parameters in declaration order (``_all_params``: positional, keyword-only, ``*args`` as a
+        tuple, ``**kwargs`` as a dict), or None when the call cannot be bound."""
+        return self._bind_args(callee.node.args, args, kwargs, skip_first)
+
+    def _bind_args(self, a: ast.arguments, args, kwargs, skip_first: bool):
+        if any(k == "**" for k, _ in kwargs):
             return None
         pos = [x.arg for x in [*a.posonlyargs, *a.args]]
         kwonly = [x.arg for x in a.kwonlyargs]
@@ -1288,12 +2363,22 @@ class SymEx:
         defaults.update({n: d for n, d in zip(kwonly, a.kw_defaults) if d is not None})
         if skip_first:
             pos = pos[1:]
-        if len(args) > len(pos):
+        stars = [i for i, x in enumerate(args) if x[0] == "star"]
+        if stars and (a.vararg is None or stars[0] < len(pos)):
+            return None  # a starred argument of unknown length may fill named parameters
+        if len(args) > len(pos) and a.vararg is None:
             return None
         vals: dict[str, object] = dict(zip(pos, args))
+        rest = tuple(args[len(pos):])
+        extra = []
         for k, v in kwargs:
-            if k in vals or k not in pos + kwonly:
+            if k in vals:
                 return None
+            if k not in pos + kwonly:
+                if a.kwarg is None:
+                    return None
+                extra.append((("const", k), v))
+                continue
             vals[k] = v
         out = []
         for p in pos + kwonly:
@@ -1304,7 +2389,101 @@ class SymEx:
                 out.append(self.ev(d, State([{}])) if isinstance(d, (ast.Constant, ast.Name, ast.Attribute, ast.UnaryOp, ast.Tuple)) else ("default", p))
             else:
                 return None
+        if a.vararg is not None:
+            out.append(("tuple", rest))
+        if a.kwarg is not None:
+            out.append(("dict", tuple(extra)))
         return tuple(out)
+
+    # ------------------------------------------------------------- objects
+    def ctor_fields(self, cq: str):
+        """How instances of the package class ``cq`` are constructed: ``(parameter names, {attribute: value in terms of
+        ("param", name)})`` - from ``__init__`` (unconditional ``self.x = <value>`` stores) or from the declared fields of an
+        attrs / dataclass / NamedTuple class.  None when the class is not understood."""
+        if cq in self._ctor_cache:
+            return self._ctor_cache[cq]
+        self._ctor_cache[cq] = None
+        cinfo = self.tree.classes[cq]
+        init = self.tree.lookup_method(cinfo, "__init__")
+        result = None
+        if init is not None:
+            if init.node.args.vararg is None and init.node.args.kwarg is None:
+                sub = SymEx(self.tree, atoms=self.atoms, inline_depth=self.inline_depth, inline_modules=self.inline_modules)
+                try:
+                    _, _ = sub.run(init)
+                    me = ("param", _all_params(init.node)[0])
+                    attrs_: dict = {}
+                    for e in sub.events:
+                        if e[0] == "store" and e[2][0] == "attr" and e[2][1] == me:
+                            attrs_[e[2][2]] = e[3] if e[1] == () and e[2][2] not in attrs_ else ("unknown", 0, f"self.{e[2][2]} is assigned conditionally / repeatedly")
+                    result = (_all_params(init.node)[1:], {} if sub.imprecise else attrs_, init.node.args)
+                except Exception:  # noqa: BLE001 - a constructor that cannot be executed symbolically is simply not understood
+                    result = (_all_params(init.node)[1:], {}, init.node.args)
+        else:
+            decos = {unparse(d).split("(")[0].split(".")[-1] for d in cinfo.node.decorator_list}
+            bases = {b.split(".")[-1].split("::")[-1] for b in cinfo.bases}
+            is_attrs = bool(decos & {"define", "frozen", "mutable", "s", "attrs"})
+            if is_attrs or "dataclass" in decos or "NamedTuple" in bases:
+                pos, kwonly, attrs_ = [], [], {}
+                for c in [x for b in reversed(self.tree.mro(cinfo)) for x in b.node.body]:
+                    if not (isinstance(c, ast.AnnAssign) and isinstance(c.target, ast.Name)) or "ClassVar" in unparse(c.annotation):
+                        continue
+                    name, dflt, in_init, conv, kw = c.target.id, c.value, True, None, False
+                    if isinstance(dflt, ast.Call) and unparse(dflt.func).split(".")[-1] in {"field", "ib", "attrib"}:
+                        spec = {k.arg: k.value for k in dflt.keywords if k.arg}
+                        in_init = not (isinstance(spec.get("init"), ast.Constant) and spec["init"].value is False)
+                        conv = spec.get("converter")
+                        kw = isinstance(spec.get("kw_only"), ast.Constant) and bool(spec["kw_only"].value)
+                        fac = spec.get("factory") or spec.get("default_factory")
+                        dflt = spec.get("default") if fac is None else ast.copy_location(ast.Call(func=fac, args=[], keywords=[]), c)
+                    if not in_init:
+                        attrs_[name] = ("default", name)  # per-object state that the constructor does not receive
+                        continue
+                    param = name.lstrip("_") if is_attrs else name  # attrs strips the underscores of private attributes
+                    val = ("param", param)
+                    if conv is not None:
+                        val = ("call", self.ev(conv, State([{}])), (val,), ())
+                    attrs_[name] = val
+                    (kwonly if kw else pos).append((param, dflt))
+                tail = []
+                for _, d in reversed(pos):
+                    if d is None:
+                        break
+                    tail.insert(0, d)
+                a = ast.arguments(posonlyargs=[], args=[ast.arg(arg=n) for n, _ in pos], vararg=None, kwonlyargs=[ast.arg(arg=n) for n, _ in kwonly],
+                                  kw_defaults=[d for _, d in kwonly], kwarg=None, defaults=tail)
+                result = ([n for n, _ in pos] + [n for n, _ in kwonly], attrs_, a)
+        self._ctor_cache[cq] = result
+        return result
+
+    def ctor_bind(self, cq: str, args, kwargs, st: State | None = None):
+        """Constructor arguments of ``cq(...)`` in the order of ``ctor_fields(cq)[0]`` (keyword / positional / defaults resolved)."""
+        info = self.ctor_fields(cq)
+        if info is None:
+            return None
+        return self._bind_args(info[2], args, kwargs, skip_first=self.tree.lookup_method(self.tree.classes[cq], "__init__") is not None)
+
+    def object_attr(self, obj, name: str):
+        """``obj.name`` of an object that was constructed in the analysed code (``("call", ("global", <class>), bound, ())``):
+        the value the constructor gave it, if no method of the class assigns the attribute again and the value is not a
+        mutable container (those are per-object state: left as ``("attr", obj, name)``)."""
+        cq = self.class_of_value(obj)
+        if cq is None or obj[3]:
+            return None
+        info = self.ctor_fields(cq)
+        if info is None or name not in info[1] or len(info[0]) != len(obj[2]):
+            return None
+        v = subst(info[1][name], {("param", p): a for p, a in zip(info[0], obj[2])})
+        if v[0] in {"list", "dict", "set", "unknown", "default"} or any(x[0] in {"unknown", "default"} for x in subterms(v)):
+            return None
+        cinfo = self.tree.classes[cq]
+        for m in cinfo.methods.values():
+            if m.name == "__init__":
+                continue
+            for n in ast.walk(m.node):
+                if isinstance(n, ast.Attribute) and n.attr == name and isinstance(n.ctx, (ast.Store, ast.Del)):
+                    return None
+        return v
 
 
 # ---------------------------------------------------------------------------- helpers
@@ -1330,6 +2509,29 @@ def normal(test):
         return test, pos
 
 
+def _replace_identity(v, old, new):
+    """``v`` with the identical object ``old`` (at any depth) replaced by ``new``; ``v`` itself if it does not occur."""
+    if v is old:
+        return new
+    if isinstance(v, tuple):
+        out = None
+        for i, x in enumerate(v):
+            if isinstance(x, tuple):
+                nx = _replace_identity(x, old, new)
+                if nx is not x:
+                    if out is None:
+                        out = list(v)
+                    out[i] = nx
+        if out is not None:
+            return tuple(out)
+    return v
+
+
+def _fold_heads(v) -> set:
+    """The accumulator symbols that folds inside ``v`` bind themselves (they are not loop-carried names of the caller)."""
+    return {t[4] for t in subterms(v) if t[0] == "fold" and len(t) == 5}
+
+
 def _common(a: tuple, b: tuple) -> tuple:
     n = 0
     for x, y in zip(a, b):
@@ -1340,18 +2542,23 @@ def _common(a: tuple, b: tuple) -> tuple:
 
 
 def _merge_lists(vals):
-    if not all(v is not None and v[0] == "list" for v in vals):
+    """Join of containers (list / set / dict) that share a prefix and differ in conditional items added on different paths."""
+    if not all(v is not None and v[0] in {"list", "set", "dict"} and v[0] == vals[0][0] for v in vals):
         return None
+    kind = vals[0][0]
     prefix = vals[0][1]
     for v in vals[1:]:
         prefix = _common(prefix, v[1])
     tails = [v[1][len(prefix):] for v in vals]
-    if any(x[0] not in {"when", "foreach"} for t in tails for x in t):
+    if kind == "dict":
+        if any(x[1][0] not in {"when", "foreach"} and x[0][0] not in {"when", "foreach"} for t in tails for x in t):
+            return None
+    elif any(x[0] not in {"when", "foreach"} for t in tails for x in t):
         return None
     out = prefix
     for t in tails:
         out += t
-    return ("list", out)
+    return (kind, out)
 
 
 def _all_params(fn: ast.FunctionDef) -> list[str]:
@@ -1387,7 +2594,7 @@ def _rebinds(body, name: str) -> bool:
         for n in ast.walk(s):
             if isinstance(n, ast.Name) and n.id == name and isinstance(n.ctx, ast.Store):
                 par = getattr(n, "_parent", None)
-                if isinstance(par, ast.AugAssign) and isinstance(par.op, ast.Add):
+                if isinstance(par, ast.AugAssign) and isinstance(par.op, (ast.Add, ast.BitOr)):
                     continue
                 return True
             if isinstance(n, ast.Call) and isinstance(n.func, ast.Attribute) and isinstance(n.func.value, ast.Name) and n.func.value.id == name and n.func.attr not in {"append", "extend"}:
@@ -1411,3 +2618,108 @@ def _load(node):
     new = copy.copy(node)
     new.ctx = ast.Load()
     return new
+
+
+# ---------------------------------------------------------------------------- iteration structure of values
+def _each_expansion(e):
+    """``(eaches, conditions, element)`` if the generic element ``e`` ranges over a list that consists of ONE
+    comprehension item ``foreach(e1, foreach(e2, when(pc, x)))`` - then ``e`` IS ``x`` for ``e1, e2`` under ``pc``."""
+    if not (isinstance(e, tuple) and len(e) == 3 and e[0] == "each"):
+        return None
+    it = e[1]
+    while isinstance(it, tuple) and it and it[0] == "call" and it[1] in {("builtin", "list"), ("builtin", "tuple"), ("builtin", "iter")} and len(it[2]) == 1 and not it[3]:
+        it = it[2][0]
+    if not (isinstance(it, tuple) and it and it[0] in {"list", "tuple"} and len(it[1]) == 1):
+        return None
+    eaches, pcs, x = unwrap(it[1][0])
+    if not eaches or (isinstance(x, tuple) and x and x[0] == "star"):
+        return None
+    return eaches, pcs, x
+
+
+def flatten_each(v):
+    """Iterating a collected iteration is the iteration itself: every generic element ``("each", L, n)`` of a list
+    ``L = [x for e1 for e2 if pc]`` (a comprehension, the yields of a generator function, an accumulator filled by a
+    loop - then iterated again by a loop, a comprehension, ``sum`` ...) is replaced by ``x``; the ``foreach`` / ``fold``
+    that ranged over it ranges over ``e1, e2`` instead and inherits the conditions.  Elements that are not bound inside
+    ``v`` (loop variables of an event) are replaced as well: use ``expand_ranges`` for their ranges."""
+    for _ in range(64):
+        target = next((t for t in subterms(v) if t[0] == "each" and _each_expansion(t) is not None), None)
+        if target is None:
+            return v
+        eaches, pcs, x = _each_expansion(target)
+
+        def rewrite(t):
+            if not isinstance(t, tuple):
+                return t
+            if t == target:
+                return x
+            if t and t[0] == "foreach" and len(t) == 3 and t[1] == target:
+                inner = rewrite(t[2])
+                if pcs:
+                    inner = ("when", pcs, inner)
+                for e in reversed(eaches):
+                    inner = ("foreach", e, inner)
+                return inner
+            if t and t[0] == "fold" and len(t) == 5 and target in t[1]:
+                es = tuple(y for e in t[1] for y in (eaches if e == target else (rewrite(e),)))
+                step = rewrite(t[3])
+                if pcs:
+                    step = ("when", pcs + step[1], step[2]) if step[0] == "when" else ("when", pcs, step)
+                return ("fold", es, rewrite(t[2]), step, t[4])
+            return tuple(rewrite(y) for y in t)
+
+        v = rewrite(v)
+    raise Undecided("iteration structure too deep to flatten")
+
+
+def expand_ranges(eaches):
+    """``(eaches, conditions)`` for a sequence of loop elements with every collected iteration expanded (see ``flatten_each``)."""
+    out, conds = [], ()
+    todo = list(eaches)
+    for _ in range(64):
+        if not todo:
+            return tuple(out), conds
+        e = todo.pop(0)
+        exp = _each_expansion(e)
+        if exp is None:
+            e2 = flatten_each(e)
+            if e2 not in out:
+                out.append(e2)
+        else:
+            conds += exp[1]
+            todo = list(exp[0]) + todo
+    raise Undecided("iteration structure too deep to expand")
+
+
+def free_eaches(v) -> list:
+    """The generic elements ``("each", ...)`` that ``v`` depends on and that no ``foreach`` / ``fold`` inside ``v`` binds
+    (in order of first occurrence; an element inside the iterable of another element counts)."""
+    out: list = []
+
+    def rec(t, bound):
+        if not isinstance(t, tuple) or not t:
+            return
+        if t[0] == "each" and len(t) == 3:
+            if t not in bound and t not in out:
+                rec(t[1], bound)
+                if t not in out:
+                    out.append(t)
+            return
+        if t[0] == "foreach" and len(t) == 3:
+            rec(t[1][1], bound)
+            rec(t[2], bound | {t[1]})
+            return
+        if t[0] == "fold" and len(t) == 5:
+            inner = set(bound)
+            for e in t[1]:
+                rec(e[1], inner)
+                inner = inner | {e}
+            rec(t[2], bound)
+            rec(t[3], inner)
+            return
+        for y in t:
+            rec(y, bound)
+
+    rec(v, frozenset())
+    return out
